@@ -486,6 +486,12 @@ def opt_payload(v, ty='?'):
     if k == 'some':
         return p
     if k == 'ite':
+        # unwrapping None diverges: only the arms that are (or may be) Some contribute a payload
+        ka, kb = opt_parts(p.a)[0], opt_parts(p.b)[0]
+        if kb == 'none' and ka != 'none':
+            return opt_payload(p.a, ty)
+        if ka == 'none' and kb != 'none':
+            return opt_payload(p.b, ty)
         return I.ite(p.c, opt_payload(p.a, ty), opt_payload(p.b, ty))
     if k == 'sym' and isinstance(p, I.Sym):
         return I.get_field(I.downcast(p, 'Some'), 0, ty)
@@ -572,6 +578,105 @@ def _map(ip, st, t, a, rt):
         payload = opt_payload(o, '?')
         r = call_fn_value(ip, f, [payload], '?')
         return I.ite(opt_is_some(o), I.some(r), I.NONE)
+    return NotImplemented
+
+
+@reg('std::option::Option::<T>::is_some_and')
+def _is_some_and(ip, st, t, a, rt):
+    o, f = a
+    k, p = opt_parts(o)
+    if k == 'none':
+        return I.FALSE
+    if k == 'some':
+        return call_fn_value(ip, f, [p], 'bool')
+    if k == 'sym':
+        payload = opt_payload(o, '?')
+        r = call_fn_value(ip, f, [payload], 'bool')
+        if isinstance(r, I.B):
+            return I.b_and(opt_is_some(o), r)
+        return I.ite(opt_is_some(o), r, I.FALSE)
+    return NotImplemented
+
+
+@reg('std::option::Option::<T>::is_none_or')
+def _is_none_or(ip, st, t, a, rt):
+    o, f = a
+    k, p = opt_parts(o)
+    if k == 'none':
+        return I.TRUE
+    if k == 'some':
+        return call_fn_value(ip, f, [p], 'bool')
+    if k == 'sym':
+        payload = opt_payload(o, '?')
+        r = call_fn_value(ip, f, [payload], 'bool')
+        if isinstance(r, I.B):
+            return I.b_or(I.b_not(opt_is_some(o)), r)
+    return NotImplemented
+
+
+@reg('std::option::Option::<T>::map_or_else')
+def _map_or_else(ip, st, t, a, rt):
+    o, dflt, f = a
+    k, p = opt_parts(o)
+    if k == 'none':
+        return call_fn_value(ip, dflt, [], rt)
+    if k == 'some':
+        return call_fn_value(ip, f, [p], rt)
+    if k == 'sym':
+        payload = opt_payload(o, '?')
+        r = call_fn_value(ip, f, [payload], rt)
+        d = call_fn_value(ip, dflt, [], rt)
+        return I.ite(opt_is_some(o), r, d)
+    return NotImplemented
+
+
+@reg('std::option::Option::<T>::unwrap_or_else')
+def _unwrap_or_else(ip, st, t, a, rt):
+    o, dflt = a
+    k, p = opt_parts(o)
+    if k == 'none':
+        return call_fn_value(ip, dflt, [], rt)
+    if k == 'some':
+        return p
+    if k == 'sym':
+        return I.ite(opt_is_some(o), opt_payload(o, rt), call_fn_value(ip, dflt, [], rt))
+    return NotImplemented
+
+
+@reg('std::option::Option::<T>::unwrap_or')
+def _unwrap_or(ip, st, t, a, rt):
+    o, dflt = a
+    k, p = opt_parts(o)
+    if k == 'none':
+        return dflt
+    if k == 'some':
+        return p
+    if k == 'sym':
+        return I.ite(opt_is_some(o), opt_payload(o, rt), dflt)
+    return NotImplemented
+
+
+@reg('std::mem::replace', 'core::mem::replace')
+def _mem_replace(ip, st, t, a, rt):
+    if not isinstance(a[0], I.Ref):
+        return NotImplemented
+    old = I.read_lv(a[0].lv)
+    I.write_lv(a[0].lv, a[1])
+    return old
+
+
+@reg('std::mem::swap', 'core::mem::swap')
+def _mem_swap(ip, st, t, a, rt):
+    if not (isinstance(a[0], I.Ref) and isinstance(a[1], I.Ref)):
+        return NotImplemented
+    x, y = I.read_lv(a[0].lv), I.read_lv(a[1].lv)
+    I.write_lv(a[0].lv, y)
+    I.write_lv(a[1].lv, x)
+    return I.tup()
+
+
+@reg('std::mem::take', 'core::mem::take')
+def _mem_take(ip, st, t, a, rt):
     return NotImplemented
 
 
@@ -761,7 +866,7 @@ def _get_or_insert_with(ip, st, t, a, rt):
 
 
 # --- element-wise iterator adaptors: evaluate the closure once on a symbolic item (events only) -----------
-ADAPTOR_RX = r'^(std::iter::Iterator::(map|filter_map|for_each|flat_map|filter|inspect)|rayon::iter::ParallelIterator::(map|filter_map|for_each|flat_map|filter|flat_map_iter)|rayon::iter::IndexedParallelIterator::(map|filter_map))$'
+ADAPTOR_RX = r'^(std::iter::Iterator::(map|filter_map|for_each|flat_map|filter|inspect|find|find_map|position|any|all|take_while|skip_while|map_while)|rayon::iter::ParallelIterator::(map|filter_map|for_each|flat_map|filter|flat_map_iter)|rayon::iter::IndexedParallelIterator::(map|filter_map))$'
 
 
 @regx(ADAPTOR_RX)
@@ -783,6 +888,10 @@ def _adaptor(ip, st, t, a, rt):
         return NotImplemented
     ity = body['locals'][2]['ty']
     item = I.mk_sym(nf.app_atom('item', I.frozen(a[0])), ity)
+    if ity.startswith('&') and I.is_scalar_ty(ity.lstrip('&').replace('mut ', '', 1).strip()):
+        # `find(|&i| ..)` / `filter(|&x| ..)`: the closure receives a reference to a scalar item
+        pointee = ity.lstrip('&').replace('mut ', '', 1).strip()
+        item = ip.ref_to(I.mk_sym(nf.app_atom('item', I.frozen(a[0])), pointee), ity)
     snap = ip.snap(st)
     guard = st.guard
     n0 = len(ip.events)
@@ -851,6 +960,33 @@ def _fixed_search(ip, st, t, a, rt):
     for i in reversed(range(len(conds))):
         out = I.ite(conds[i], I.some(RF.const(i)), out)
     return out
+
+
+# --- by-value iteration over a small constant array (`for [i, j, k] in TABLE`): concrete while unrolling ------------------
+@reg('std::array::iter::<impl std::iter::IntoIterator for [T; N]>::into_iter')
+def _array_into_iter(ip, st, t, a, rt):
+    v = deref(a[0])
+    if isinstance(v, I.St) and v.adt == 'array' and len(v.fields) <= 8:
+        return I.St('std::array::IntoIter', None, {'arr': v, 'pos': RF.const(0)})
+    return NotImplemented
+
+
+@reg('<std::array::IntoIter<T, N> as std::iter::Iterator>::next')
+def _array_iter_next(ip, st, t, a, rt):
+    if not isinstance(a[0], I.Ref):
+        return NotImplemented
+    it = I.read_lv(a[0].lv)
+    if not (isinstance(it, I.St) and it.adt == 'std::array::IntoIter' and ip.unrolling):
+        return NotImplemented
+    pos = it.fields['pos']
+    arr_ = it.fields['arr']
+    if not (isinstance(pos, RF) and pos.is_const()):
+        return NotImplemented
+    k = int(pos.const_value())
+    if k < len(arr_.fields):
+        I.write_lv(a[0].lv, I.St(it.adt, None, {'arr': arr_, 'pos': RF.const(k + 1)}))
+        return I.some(arr_.fields[k])
+    return I.NONE
 
 
 # --- integer ranges with constant bounds (used by loop unrolling) ------------------------------------------
